@@ -215,10 +215,10 @@ func normalizeOps(repo string) []string {
 		switch sel(call.Fun) {
 		case "ReplaceAll":
 			if len(call.Args) == 3 {
-				res = append(res, "replace:"+lit(call.Args[1])+":"+lit(call.Args[2]))
+				res = append(res, "("+leanStr("replace")+", "+leanStr(lit(call.Args[1]))+", "+leanStr(lit(call.Args[2]))+")")
 			}
 		case "ToLower", "ToUpper", "TrimSpace":
-			res = append(res, strings.ToLower(sel(call.Fun)))
+			res = append(res, "("+leanStr(strings.ToLower(sel(call.Fun)))+", \"\", \"\")")
 		}
 		return true
 	})
@@ -558,12 +558,12 @@ func main() {
 		}
 		w("(%s, %s)", leanStr(p[0]), leanStr(p[1]))
 	}
-	w("]\n\n/-- util/helper.go NormalizeSKI: operations in order -/\ndef normalizeOps : List String :=\n  [")
+	w("]\n\n/-- util/helper.go NormalizeSKI: operations in order -/\ndef normalizeOps : List (String × String × String) :=\n  [")
 	for i, p := range normalizeOps(*repo) {
 		if i > 0 {
 			w(", ")
 		}
-		w("%s", leanStr(p))
+		w("%s", p)
 	}
 	w("]\n\n/-- api/connectionstate.go: ConnectionState names in iota order -/\ndef connStateNames : List String :=\n  [")
 	cs := connStates(*repo)
